@@ -21,6 +21,8 @@ THEOREMS = [P + t for t in (
     "handles_share_one_store", "history_last_op_decides_any_handle",
     "graph_roundtrip_every_element_partial", "graph_roundtrip_every_element_component_partial",
     "graph_at_nested_dedicated_counterexample",
+    # several elements: an interleaved history falls apart into the histories of the single elements
+    "elements_do_not_share", "untouched_element_unchanged", "history_last_op_decides_any_element",
     # the codec hypothesis discharged for the value model that carries C03's and C12's codec models
     "rich_rowLaw", "fieldLaw_rich", "typed_wf", "rich_rows_ok", "fieldLaw_discharged", "props_roundtrip_typed_partial",
     "dict_roundtrip_typed_partial", "graph_roundtrip_typed_partial", "graph_roundtrip_component_typed_partial")]
@@ -49,6 +51,12 @@ TRUSTED_BASE = [
     "the converters are pure functions in the Lean model by construction; that the python ones neither alter their argument nor answer "
     "differently the second time is checked by the oracle (check_inputs) and by the `dict` correspondence op, which converts one dictionary "
     "object twice and reports the second result and the dictionary as it is afterwards",
+    "several elements: in the Lean model a read depends on the element's own stored properties only (elements_do_not_share: an interleaved "
+    "history falls apart into per-element histories); that the python readers keep no decoded object between calls - no table shared by "
+    "elements carrying an equal text, no object handed out twice - is an oracle fact: every object a getter / converter hands out is changed "
+    "in place, deeply, before the next read (element histories, check_alias over equal values on three elements, the third call of check_inputs)",
+    "the size limit of mf_data / user_data / layout_data is read from the class under check (MAX_SIZE); texts exactly at and one under it in "
+    "seven spellings are pool values (every run, every path); the text layer itself stays trusted as above",
 ]
 ASSUMPTIONS = [
     "identity-encoded properties hold str values, node_map holds strings without characters that json escapes, management_ip is in canonical form",
@@ -74,7 +82,11 @@ RULE = ("sliver trees (depth <= 4, <= 12 elements) with a random subset of every
         "existing id), writes rotating over them and every handle reading after every step; deterministic chain trees through every nesting "
         "position (node/component/service/DedicatedPort/SubInterface and its suffixes, with siblings) and every tree with children: written "
         "once, the graph reader started at every element; every converter called twice on one argument object, the argument deep-compared "
-        "before / after; get_sliver() at every position of a live topology through every handle; non-trivial = depth >= 2 or >= 3 properties set (trees), every element history; distinct by canonical JSON of the case")
+        "before / after, and a third time after the first result was changed in place; what every getter hands out in an element history "
+        "(get_property, attribute, get_sliver) is changed in place - lists inside Labels / StructuralInfo / Tags / JSON blobs, fields, children "
+        "tables - before the next read; equal values (list-valued fields first) on three elements, get - modify - set on the first, the others "
+        "compared with the value frozen before any read and their stored text; JSON blobs exactly at / one under / one over MAX_SIZE in "
+        "standard, compact, blank-padded, raw non-ASCII and escaped spellings; get_sliver() at every position of a live topology through every handle; non-trivial = depth >= 2 or >= 3 properties set (trees), every element history; distinct by canonical JSON of the case")
 
 KINDS = ["node", "component", "service", "interface", "link"]
 SAFE = "abcdefghijklmnopqrstuvwxyzABCDEFGHIJKLMNOPQRSTUVWXYZ0123456789_-.:"
@@ -317,6 +329,43 @@ ENUMERATED = {"type", "layer", "mirror_direction", "stitch_node", "flags", "ero"
               "structural_info", "location", "capacity_hints", "tags", "management_ip"}
 
 
+_BOUNDARY = {}
+
+
+def boundary_texts(cls):
+    """JSON texts at the size limit of a size-limited property (`MAX_SIZE` of the class, read from the class under check):
+    exactly at the limit and one under it, in every spelling that is legal JSON text but not what `json.dumps` writes -
+    standard separators, compact separators (re-spelled they are longer), blanks (re-spelled shorter), non-ASCII characters
+    written raw (escaped they are longer) and escaped (raw they are shorter), object / array / string at top level.  An accepted value
+    must come back through every reader.  -> [(tag, text)]; `over_limit_texts`: one over the limit (must be refused)."""
+    if cls in _BOUNDARY:
+        return _BOUNDARY[cls]
+    m = int(R.get()[cls].MAX_SIZE)
+    out = []
+
+    def fit(tag, mk, n):
+        """mk(k) -> text growing by one character per unit of k: the text of length exactly n"""
+        base = len(mk(0))
+        t = mk(n - base)
+        if len(t) == n:
+            out.append(("%s:%s" % (tag, "at" if n == m else "under%d" % (m - n)), t))
+    for n in (m, m - 1):
+        fit("string", lambda k: '"' + "a" * k + '"', n)
+        fit("object", lambda k: json.dumps({"k": "v" * k, "n": [1, 2, {"x": None}]}), n)
+        fit("array", lambda k: json.dumps([1, "b" * k, True]), n)
+        fit("compact", lambda k: json.dumps({"k%d" % i: i for i in range(m // 12)} | {"pad": "p" * k}, separators=(",", ":")), n)
+        fit("blanks", lambda k: '{"a":   1,' + " " * k + '"b": [ 1 , 2 ]}', n)
+        fit("nonascii", lambda k: json.dumps({"title": "\u00e9t\u00e9 " * (m // 12), "pad": "p" * k}, ensure_ascii=False), n)
+        fit("escaped", lambda k: json.dumps({"title": "\u00fc\u65e5" * (m // 40), "pad": "p" * k}), n)
+    _BOUNDARY[cls] = out
+    return out
+
+
+def over_limit_texts(cls):
+    m = int(R.get()[cls].MAX_SIZE)
+    return [("string:over1", '"' + "a" * (m - 1) + '"'), ("compact:over1", json.dumps({"pad": "p" * (m - 9)}, separators=(",", ":")))]
+
+
 def value_pool(kind, key):
     """every value description the generator can produce for property `key` of a sliver of `kind`.  For the keys in
     ENUMERATED the pool covers every member of every enum and every non-default value of every boolean / flag /
@@ -361,7 +410,8 @@ def value_pool(kind, key):
         return out
     if key in ("mf_data", "user_data", "layout_data"):
         cls = {"mf_data": "MeasurementData", "user_data": "UserData", "layout_data": "LayoutData"}[key]
-        return [["J", cls, t] for t in JSON_TEXTS]
+        return [["J", cls, t] for t in JSON_TEXTS] + [["J", cls, t] for tag, t in boundary_texts(cls)
+                                                      if tag.endswith(":at") or tag.split(":")[0] in ("compact", "nonascii")]
     if key == "tags":
         return [["tags", x] for x in [["t1"], ["blue", "green"], ["a-b", "c_d", "\u00fc9"], []]]
     if key == "gateway":
@@ -513,6 +563,10 @@ def gen_cases(ctx, rng, n, res=None):
     for kind in KINDS:
         cases.append(gen_tree(rng, kind, [0], 0, 0.0, res))
         cases.append(gen_tree(rng, kind, [0], 0, 1.0, res))
+        for nm in ("ab", "n" * 255):        # the other size-limited property: names of 2 .. 255 characters, both ends
+            t = gen_tree(rng, kind, [0], 0, 0.0, res)
+            t["f"]["name"] = ["s", nm]
+            cases.append(t)
         for k in settable(kind):            # one property at a time next to the name
             if k in ENUMERATED:             # every member / every non-default sub-field value, every run
                 descs = value_pool(kind, k)
@@ -780,6 +834,25 @@ def check_inputs(t, res):
         if va != vb:
             res.violation("C02:repeat-differs:%s:%s" % (kind, name), "%s called twice on the same %s gives two different results" % (
                 name, type(arg).__name__), case, expected=va[:400], observed=vb[:400])
+        # what a converter hands out is the caller's: the first result changed in place (deeply - lists inside Labels,
+        # children tables of a sliver, ...) must not show in the next result for the same argument, nor in the argument
+        try:
+            marks = scribble(a)
+        except Exception:
+            marks = 0
+        if marks:
+            res.count("inputs:result-changed-in-place:" + name)
+            if snapshot(arg) != before:
+                res.count("inputs:result-shares-with-argument:" + name)
+                return b
+            try:
+                vc = view(fn(arg))
+            except Exception as e:
+                vc = "raises " + err_kind(e)
+            if vc != vb:
+                res.violation("C02:result-aliased:%s:%s" % (kind, name), "%s hands out an object it keeps: changing the first result in "
+                              "place changes what the next call on the same %s returns" % (name, type(arg).__name__), case,
+                              expected=vb[:400], observed=vc[:400])
         return b
 
     def sview(x):
@@ -1295,6 +1368,55 @@ def model_gprops():
     return MODEL_GPROPS
 
 
+def scribble(x, _seen=None, _depth=0):
+    """A value a getter / converter handed out belongs to the caller: change it in place, deeply, the way user code does
+    before writing it back (`lab = n.labels; lab.vlan_range.append(..); n.labels = lab`) - every list gets an element,
+    every dict a key, every set a member, every public attribute of a value object of the repo's classes is reassigned or
+    (containers) changed in place; slivers are walked through their children.  Enum members, strings, numbers and
+    address objects are shared by design and left alone.  Nothing read afterwards - from this element or any other -
+    may show the marks.  -> number of places changed."""
+    import enum
+    import ipaddress
+    r = R.get()
+    seen = _seen if _seen is not None else set()
+    if x is None or isinstance(x, (str, bytes, int, float, bool, enum.Enum, ipaddress.IPv4Address, ipaddress.IPv6Address,
+                                   ipaddress.IPv4Network, ipaddress.IPv6Network, type)) or id(x) in seen or _depth > 8:
+        return 0
+    seen.add(id(x))
+    n = 0
+    if isinstance(x, list):
+        for y in list(x):
+            n += scribble(y, seen, _depth + 1)
+        x.append("scribble")
+        return n + 1
+    if isinstance(x, dict):
+        for y in list(x.values()):
+            n += scribble(y, seen, _depth + 1)
+        x["scribble"] = "scribble"
+        return n + 1
+    if isinstance(x, set):
+        x.add("scribble")
+        return 1
+    if isinstance(x, tuple):
+        for y in x:
+            n += scribble(y, seen, _depth + 1)
+        return n
+    mod = getattr(type(x), "__module__", "") or ""
+    if not mod.startswith("fim.") or not hasattr(x, "__dict__"):
+        return 0
+    for a, y in list(vars(x).items()):
+        if isinstance(y, (list, dict, set, tuple)) or (hasattr(y, "__dict__") and not isinstance(y, (enum.Enum, type))):
+            n += scribble(y, seen, _depth + 1)
+        elif not a.startswith("_") and isinstance(x, (r["JSONField"],)) and not isinstance(y, bool):
+            # a scalar field of a Labels / Capacities / ... object handed out: reassigned on the caller's copy
+            try:
+                setattr(x, a, "scribble" if not isinstance(y, (int, float)) or y is None else y + 7)
+                n += 1
+            except Exception:
+                pass
+    return n
+
+
 def elem_get(el, k):
     try:
         return ["ok", el.get_property(k)]
@@ -1415,10 +1537,13 @@ def run_elem_triple(topo, els, tr):
             if raw == "text":
                 assigned = v.json
             elif raw == "obj" and obj is not None and not isinstance(obj, str):
-                assigned = obj
-                stored_attr = type(v)(obj)
+                try:
+                    assigned, stored_attr = obj, type(v)(obj)
+                except Exception:       # the object's own spelling is over the size limit: the text it is
+                    assigned, stored_attr = v.json, stored
         vals.append((v, stored, assigned, stored_attr))
     ops, replies, steps = [], [], []
+    marks = [0]
 
     def hx(hi):
         return [hi] if hi else []
@@ -1435,6 +1560,16 @@ def run_elem_triple(topo, els, tr):
                 ops.append(["attrget", k] + hx(hi))
                 replies.append(attr_reply(h, k, g2))
             gs.append((g1, g2))
+        # what the getters hand out is the caller's: one more object from every getter of every handle, changed in place
+        # (deeply) and dropped.  Every later read - through any handle, of any element - must be free of the marks.
+        if opts.get("scribble", True):
+            for h in handles:
+                for fn in ((lambda: h.get_property(k)), (lambda: getattr(h, k)) if has_get else None):
+                    if fn is not None:
+                        try:
+                            marks[0] += scribble(fn())
+                        except Exception:
+                            pass
         return gs
 
     nstep = [0]
@@ -1478,6 +1613,7 @@ def run_elem_triple(topo, els, tr):
         if first:
             # the third reader: the deep sliver of the element (build_deep_*_sliver on the live topology)
             try:
+                marks[0] += scribble(el.get_sliver())        # (a first deep sliver, changed in place and dropped)
                 steps[-1]["sliver"] = ["ok", el.get_sliver().get_property(k)]
             except Exception as e:
                 steps[-1]["sliver"] = ["err", err_kind(e)]
@@ -1529,7 +1665,7 @@ def run_elem_triple(topo, els, tr):
         others = {k2: err_kind(e) for k2 in settable(kind)}
     stream = (type(el).__name__, gprops, ops, replies, name0 if len(handles) == 1 else {"names": names0})
     obs = {"pos": pos, "kind": kind, "cls": type(el).__name__, "key": k, "value": d, "opts": opts, "stored": vals[0][1],
-           "has_get": has_get, "has_set": has_set, "before": before, "steps": steps, "others": others, "hows": hows}
+           "has_get": has_get, "has_set": has_set, "before": before, "steps": steps, "others": others, "hows": hows, "marks": marks[0]}
     return stream, obs
 
 
@@ -1954,6 +2090,212 @@ def check_ctor_routes(ctx, rng, res):
             t.graph_model.delete_graph()
 
 
+ALIAS_SKIP = {"name", "type", "layer", "stitch_node", "mirror_direction"} | set(PAIR_KEYS)
+ALIAS_EXTRA = {"labels": [["F", "Labels", {"vlan_range": ["100-200"], "local_name": "p1"}],
+                          ["F", "Labels", {"bdf": ["0000:41:00.0", "0000:41:00.1"], "mac": ["00:11:22:33:44:55", "00:11:22:33:44:56"]}],
+                          ["F", "Labels", {"local_name": ["p1", "p2"], "device_name": ["d1", "d2"], "vlan": ["10", "20"]}]],
+               "structural_info": [["F", "StructuralInfo", {"adm_graph_ids": ["a", "b"]}]]}
+ALIAS_EXTRA["label_allocations"] = ALIAS_EXTRA["peer_labels"] = ALIAS_EXTRA["labels"]
+ALIAS_POS = ["node", "node2", "component", "component2", "service", "interface", "interface2", "link", "topservice", "serviceport",
+             "subinterface", "node3", "mirror"]
+
+
+def alias_elements(topo, els):
+    """the positions of make_topology(full, group A) plus the twins of node / component / interface on the other VMs"""
+    out = dict(els)
+    try:
+        out["node2"], out["node3"] = topo.nodes["n2"], topo.nodes["n3"]
+        out["component2"] = out["node2"].components["nic2"]
+        out["interface2"] = out["component2"].interface_list[0]
+    except Exception:
+        pass
+    return out
+
+
+def alias_cases(ctx, rng):
+    """-> [[key, value description, [position A, position B, position C]]]: every object-valued settable name, values with
+    list-valued fields first, on three elements (twins of one class and elements of different classes - a decode cache
+    is keyed by value class and text, not by element)"""
+    def listy(x):
+        return isinstance(x, list) or (isinstance(x, dict) and any(listy(v) for v in x.values()))
+    out, seen = [], set()
+    for kind in KINDS:
+        for k in settable(kind):
+            if k in ALIAS_SKIP or k in seen:
+                continue
+            seen.add(k)
+            pool = [d for d in (ALIAS_EXTRA.get(k, []) + (value_pool(kind, k) or [gen_value(rng, kind, k, 3) for _ in range(3)])) if usable_elem(d)]
+            pool = [d for d in pool if not is_empty_codec(mk_value(d))]
+            first = [d for d in pool if any(listy(x) for x in d[1:])][:ctx.scale(4, 10)]
+            rest = [d for d in pool if d not in first]
+            pick = first + rng.sample(rest, min(len(rest), ctx.scale(3, 8)))
+            holders = [p for p in ALIAS_POS if k in settable(POS_KIND.get(p.rstrip("23"), "node"))]
+            for i, d in enumerate(pick):
+                if len(holders) >= 3:
+                    j = (i * 2) % len(holders)
+                    trio = [holders[j], holders[(j + 1) % len(holders)], holders[(j + 2) % len(holders)]]
+                    out.append([k, d, trio])
+    return out
+
+
+def check_alias_case(topo, elems, c, res):
+    """[key, value, [A, B, C]]: A and B are given equal, separately built values.  Everything A's getters hand out
+    (get_property, the attribute, get_sliver()) is changed in place, deeply, and written back to A (get - modify - set).
+    B - never touched, its stored text unchanged - still reads what was set on it through every reader; C, given the
+    original value afterwards, reads it back; and what B's own getters handed out, changed in place, does not show in
+    B's next read.  The expected value is frozen (canonical text of the oracle's own object) before anything is read."""
+    r = R.get()
+    k, d, (pa, pb, pc) = c
+    A, B, C = elems[pa], elems[pb], elems[pc]
+    case = {"alias": c}
+    kind_b = POS_KIND[pb.rstrip("23")]
+    has_get, has_set = attr_info(B, k)
+
+    def frozen(kind):
+        fresh = r["SLIVER"][kind]()
+        fresh.set_property(k, mk_value(d))
+        st = fresh.get_property(k)
+        return canon(ocanon(st)), canon(attr_view(k, st))
+    exp = {p: frozen(POS_KIND[p.rstrip("23")]) for p in (pa, pb, pc)}
+    try:
+        A.set_property(k, mk_value(d))
+        B.set_property(k, mk_value(d))
+    except Exception as e:
+        res.count("alias:set-rejected:" + err_kind(e))
+        return
+    res.evaluations += 1
+    res.count("alias:key:" + k)
+    _, raw_b = topo.graph_model.get_node_properties(node_id=B.node_id)
+    raw_b = json.dumps(raw_b, sort_keys=True, default=repr)
+
+    def readers(el, pos):
+        hg, _ = attr_info(el, k)
+        out = [("get_property", lambda: canon(ocanon(el.get_property(k))), exp[pos][0]),
+               ("get_sliver", lambda: canon(ocanon(el.get_sliver().get_property(k))), exp[pos][0])]
+        if hg:
+            out.append(("attribute", lambda: canon(attr_seen(k, getattr(el, k))), exp[pos][1]))
+        return out
+
+    def judge(el, pos, when, who):
+        for rname, fn, want in readers(el, pos):
+            try:
+                got = fn()
+            except Exception as e:
+                got = "raises " + err_kind(e)
+            if got != want:
+                res.violation("C02:alias:%s:%s" % (k, rname), "%s of %s on the element at position %s no longer gives the value "
+                              "that was set on it (and that its graph node still holds) %s" % (rname, k, pos, when), case,
+                              expected=want[:300], observed=got[:300])
+                return False
+        return True
+    if not judge(B, pb, "right after it was set", "set-get"):
+        return
+    # get - modify - set on A
+    marks = 0
+    got = []
+    for fn in ((lambda: A.get_property(k)), (lambda: getattr(A, k)) if attr_info(A, k)[0] else None, (lambda: A.get_sliver())):
+        if fn is not None:
+            try:
+                x = fn()
+                marks += scribble(x)
+                got.append(x)
+            except Exception:
+                pass
+    res.count("alias:marks", marks)
+    for x in got[:2]:
+        try:
+            A.set_property(k, x)
+        except Exception:
+            res.count("alias:changed-value-refused")
+    _, raw_b2 = topo.graph_model.get_node_properties(node_id=B.node_id)
+    if json.dumps(raw_b2, sort_keys=True, default=repr) != raw_b:
+        res.violation("C02:alias:%s:other-element:stored-changed" % k, "changing a value read from one element and writing it back there "
+                      "changed the stored properties of another element (%s -> %s)" % (pa, pb), case)
+        return
+    if not judge(B, pb, "after an equal value read from the element at %s was changed in place and written back there" % pa, "other-element"):
+        return
+    # a third element given the original value afterwards
+    try:
+        C.set_property(k, mk_value(d))
+    except Exception as e:
+        res.count("alias:set-rejected:" + err_kind(e))
+        return
+    if not judge(C, pc, "when set after an equal value read elsewhere was changed in place", "later-element"):
+        return
+    # what B's own getters handed out, changed in place, then B read again
+    for fn in ((lambda: B.get_property(k)), (lambda: getattr(B, k)) if has_get else None, (lambda: B.get_sliver())):
+        if fn is not None:
+            try:
+                scribble(fn())
+            except Exception:
+                pass
+    judge(B, pb, "after the object its own getter handed out was changed in place", "same-element")
+    for el in (A, B, C):
+        try:
+            el.unset_property(k)
+        except Exception:
+            pass
+
+
+def check_alias(ctx, rng, res, only=None):
+    cases = [only] if only is not None else load_corpus("alias") + alias_cases(ctx, rng)
+    for i in range(0, len(cases), 40):
+        topo, els = make_topology(full=True, group="A")
+        try:
+            elems = alias_elements(topo, els)
+            for c in cases[i:i + 40]:
+                if only is not None:
+                    check_alias_case(topo, elems, c, res)
+                    continue
+                from core import Result
+                tmp = Result()
+                check_alias_case(topo, elems, c, tmp)
+                res.evaluations += tmp.evaluations
+                for kk, n in tmp.hist.items():
+                    res.count(kk, n)
+                if tmp.violations:      # reported from a run of the case alone on a fresh topology (replays by itself)
+                    t2, e2 = make_topology(full=True, group="A")
+                    try:
+                        check_alias_case(t2, alias_elements(t2, e2), c, res)
+                    finally:
+                        t2.graph_model.delete_graph()
+        finally:
+            topo.graph_model.delete_graph()
+
+
+def check_over_limit(res):
+    """one character over the size limit of a size-limited property: refused by every set route, nothing changes"""
+    r = R.get()
+    topo, els = make_topology(full=False)
+    try:
+        for k, cls in (("mf_data", "MeasurementData"), ("user_data", "UserData"), ("layout_data", "LayoutData")):
+            for pos in ("node", "component", "interface"):
+                el = els[pos]
+                if k not in settable(POS_KIND[pos]):
+                    continue
+                for tag, text in over_limit_texts(cls):
+                    res.evaluations += 1
+                    res.count("over-limit:" + k)
+                    before = elem_get(el, k)
+                    try:
+                        v = r[cls](text)
+                        ok = call(lambda: el.set_property(k, v))
+                    except Exception:
+                        ok = call(lambda: setattr(el, k, text)) if attr_info(el, k)[1] else ["err", "refused"]
+                    after = elem_get(el, k)
+                    c = {"overlimit": [pos, k, tag]}
+                    if ok == "ok" and after[0] != "ok":
+                        res.violation("C02:set_get:%s:%s:get-raises:%s:over-limit-accepted" % (ELEM_CLASS[POS_KIND[pos]], k, after[1]),
+                                      "a %s text over the size limit is accepted by the setter and cannot be read back" % k, c)
+                    elif ok != "ok" and canon(rd_canon(after)) != canon(rd_canon(before)):
+                        res.violation("C02:set_get:%s:%s:rejected-but-changed:over-limit" % (ELEM_CLASS[POS_KIND[pos]], k),
+                                      "a refused over-limit %s changed the stored value" % k, c)
+                    if ok == "ok":
+                        call(lambda: el.unset_property(k))
+    finally:
+        topo.graph_model.delete_graph()
+
+
 def check_side_routes(res):
     """the remaining ways to a property, oracle only: rename(), update_labels(), update_capacities(); and that an
     attribute without a setter refuses assignment and changes nothing.  Deterministic, every position."""
@@ -2097,6 +2439,8 @@ def load_corpus(what):
                     out.append({"elem": c["elem"]})
                 if what == "elem" and "elemb" in c:
                     out.append({"elemb": c["elemb"]})
+                if what == "alias" and "alias" in c:
+                    out.extend(c["alias"])
     return out
 
 
@@ -2124,6 +2468,8 @@ def oracle(ctx, res, n=None):
     check_side_routes(res)
     check_elem_slivers(res)
     check_ctor_routes(ctx, ctx.sub_rng("oracle-ctor"), res)
+    check_alias(ctx, ctx.sub_rng("oracle-alias"), res)
+    check_over_limit(res)
     res.sample({"tree": cases[len(cases) // 2], "paths": ["props", "dict", "json", "graph"]})
 
 
@@ -2159,6 +2505,10 @@ def replay(ctx, payload):
         check_elem_slivers(r)
     elif "ctor" in c:
         check_ctor_routes(ctx, ctx.sub_rng("oracle-ctor"), r)
+    elif "alias" in c:
+        check_alias(ctx, ctx.sub_rng("oracle-alias"), r, only=c["alias"])
+    elif "overlimit" in c:
+        check_over_limit(r)
     else:
         check_elem(c, r)
     want = payload.get("signature")
